@@ -461,6 +461,42 @@ pub fn gen_history(seed: u64, tier: &str) -> Vec<String> {
         after_finish(&mut out, 1);
         out.push("dump g0".into());
     }
+    // long tokens: sharing does not depend on the length of a token's text (around powers of two up to 4 KiB, in bytes:
+    // one- and two-byte characters); the root is too wide to be cached itself, so each of its tokens is looked up
+    {
+        let lens: &[usize] = if tier == "thorough" {
+            &[15, 16, 17, 31, 32, 33, 63, 64, 65, 127, 128, 129, 130, 255, 256, 257, 511, 512, 513, 1023, 1024, 1025, 4095, 4096, 4097, 65535, 65536, 65537]
+        } else {
+            &[16, 64, 127, 128, 129, 130, 256, 257, 1024, 1025, 4096, 4097]
+        };
+        for (bi, b) in bes.iter().enumerate() {
+            out.push(format!("case {}", case));
+            case += 1;
+            out.push(format!("cache {}", b));
+            let mut g = 0;
+            for (li, len) in lens.iter().enumerate() {
+                if (li + bi) % 2 == 1 && tier != "thorough" {
+                    continue;
+                }
+                let text = if li % 2 == 0 { "c".repeat(*len) } else { format!("{}{}", "é".repeat(len / 2), if len % 2 == 1 { "x" } else { "" }) };
+                for _round in 0..2 {
+                    out.push("builder c0".into());
+                    out.push("start 0".into());
+                    for _ in 0..3 {
+                        out.push(format!("tok 11 {}", hex(&text)));
+                    }
+                    out.push("start 1".into());
+                    out.push(format!("tok 11 {}", hex(&text)));
+                    out.push("finish_node".into());
+                    out.push(format!("tok 10 {}", hex(&text)));
+                    out.push("finish_node".into());
+                    out.push("finish".into());
+                    after_finish(&mut out, g);
+                    g += 1;
+                }
+            }
+        }
+    }
     let n = if tier == "thorough" { 4000 } else { 400 };
     let masks: [u32; 5] = [u32::MAX, u32::MAX, 1, 3, 0];
     for i in 0..n {
@@ -630,6 +666,46 @@ pub fn gen_intern(seed: u64, tier: &str) -> Vec<String> {
             }
         }
     }
+    // look-alikes under truncation: single characters (and short strings) whose code points / bytes agree in the low byte,
+    // the low 16 bits, the first or the last byte, or the length -- whatever shortcut a back end keys on besides the
+    // string itself, two different strings must get two keys and resolve to themselves, in either order of arrival
+    {
+        let mut groups: Vec<Vec<String>> = vec![];
+        for base in ['-', 'a', '\0', '\u{7f}', '\u{ff}', '0'] {
+            let mut g = vec![base.to_string()];
+            for add in [0x100u32, 0x200, 0x4E00, 0xFF00, 0x1_0000, 0x2_0000, 0x1_F600 - 0x2D] {
+                if let Some(c) = char::from_u32(base as u32 + add) {
+                    g.push(c.to_string());
+                }
+            }
+            groups.push(g);
+        }
+        groups.push(vec!["ab".into(), "ba".into(), "a".into(), "b".into(), "abab".into(), "aabb".into(), "ab\0".into(), "\0ab".into()]);
+        groups.push(vec!["é".into(), "\u{c3}".into(), "\u{a9}".into(), "\u{c3}\u{a9}".into(), "e\u{301}".into()]);
+        for b in &bes {
+            for (gi, g) in groups.iter().enumerate() {
+                for rev in [false, true] {
+                    out.push(format!("case {}", case));
+                    case += 1;
+                    out.push(format!("interner {}", b));
+                    let mut order: Vec<&String> = g.iter().collect();
+                    if rev {
+                        order.reverse();
+                    }
+                    for (j, s) in order.iter().enumerate() {
+                        let op = if (gi + j) % 2 == 0 { "intern" } else { "intern_nt" };
+                        out.push(format!("{} i0 {}", op, hex(s)));
+                    }
+                    for s in &order {
+                        out.push(format!("intern i0 {}", hex(s)));
+                    }
+                    for r in 0..(g.len() as u32 + 1) {
+                        out.push(format!("resolve i0 {}", r));
+                    }
+                }
+            }
+        }
+    }
     // random long sequences, incl. exhaustion of the small foreign key types
     let n = if tier == "thorough" { 40 } else { 8 };
     for i in 0..n {
@@ -695,6 +771,58 @@ fn cp_enumerate(len: usize, prefix: &mut Vec<String>, ncps: usize, out: &mut Vec
     }
 }
 
+/// a random parser-like walk over one builder (`builder c0` has been emitted): tokens, nested nodes, checkpoints that are
+/// mostly used validly (wrapped / reverted at the depth they were taken at), sometimes not; ends with `finish`.
+/// `mismatch`: now and then a static kind is given a text that is not its static text (a documented misuse that only debug
+/// builds reject; optimised builds must still produce a consistent tree)
+pub fn parser_walk(rng: &mut Rng, len: usize, mismatch: bool, out: &mut Vec<String>) {
+    out.push("start 0".into());
+    let mut depth = 1usize; // open nodes
+    let mut cps: Vec<(usize, usize)> = vec![]; // (index, depth at creation)
+    let mut ncp = 0usize;
+    for _ in 0..len {
+        let r = rng.below(100);
+        if r < 30 {
+            if mismatch && rng.chance(1, 8) {
+                out.push(format!("tok {} {}", *rng.pick(&[12u32, 14, 16][..]), hex(*rng.pick(&["ab", "é→é", "x", ""][..]))));
+            } else {
+                out.push(format!("tok {} {}", *rng.pick(&[10u32, 11, 12, 13, 15][..]), hex(*rng.pick(&TEXTS[..]))));
+            }
+        } else if r < 45 {
+            out.push(format!("start {}", rng.below(4)));
+            depth += 1;
+        } else if r < 60 {
+            if depth > 1 || rng.chance(1, 10) {
+                out.push("finish_node".into());
+                depth = depth.saturating_sub(1);
+            }
+        } else if r < 75 {
+            out.push("cp".into());
+            cps.push((ncp, depth));
+            ncp += 1;
+        } else if !cps.is_empty() {
+            // mostly use a recent checkpoint taken at the current depth (valid), sometimes any
+            let cand: Vec<(usize, usize)> = cps.iter().cloned().filter(|c| c.1 == depth).collect();
+            let (j, d) = if !cand.is_empty() && rng.chance(4, 5) { *rng.pick(&cand) } else { *rng.pick(&cps) };
+            if rng.chance(1, 2) {
+                out.push(format!("start_at k{} {}", j, rng.below(4)));
+                if d == depth {
+                    depth += 1;
+                }
+            } else {
+                out.push(format!("revert k{}", j));
+                if d <= depth {
+                    depth = d;
+                }
+            }
+        }
+    }
+    for _ in 0..depth {
+        out.push("finish_node".into());
+    }
+    out.push("finish".into());
+}
+
 pub fn gen_checkpoints(seed: u64, tier: &str) -> Vec<String> {
     let mut rng = Rng::new(seed ^ 0xC09);
     let mut out = vec![];
@@ -727,48 +855,8 @@ pub fn gen_checkpoints(seed: u64, tier: &str) -> Vec<String> {
         case += 1;
         out.push(format!("cache {}", bes[i % bes.len()]));
         out.push("builder c0".into());
-        out.push("start 0".into());
         let len = 5 + rng.below(if tier == "thorough" { 200 } else { 60 });
-        let mut depth = 1usize; // open nodes
-        let mut cps: Vec<(usize, usize)> = vec![]; // (index, depth at creation)
-        let mut ncp = 0usize;
-        for _ in 0..len {
-            let r = rng.below(100);
-            if r < 30 {
-                out.push(format!("tok {} {}", *rng.pick(&[10u32, 11, 12, 13, 15][..]), hex(*rng.pick(&TEXTS[..]))));
-            } else if r < 45 {
-                out.push(format!("start {}", rng.below(4)));
-                depth += 1;
-            } else if r < 60 {
-                if depth > 1 || rng.chance(1, 10) {
-                    out.push("finish_node".into());
-                    depth = depth.saturating_sub(1);
-                }
-            } else if r < 75 {
-                out.push("cp".into());
-                cps.push((ncp, depth));
-                ncp += 1;
-            } else if !cps.is_empty() {
-                // mostly use a recent checkpoint taken at the current depth (valid), sometimes any
-                let cand: Vec<(usize, usize)> = cps.iter().cloned().filter(|c| c.1 == depth).collect();
-                let (j, d) = if !cand.is_empty() && rng.chance(4, 5) { *rng.pick(&cand) } else { *rng.pick(&cps) };
-                if rng.chance(1, 2) {
-                    out.push(format!("start_at k{} {}", j, rng.below(4)));
-                    if d == depth {
-                        depth += 1;
-                    }
-                } else {
-                    out.push(format!("revert k{}", j));
-                    if d <= depth {
-                        depth = d;
-                    }
-                }
-            }
-        }
-        for _ in 0..depth {
-            out.push("finish_node".into());
-        }
-        out.push("finish".into());
+        parser_walk(&mut rng, len, false, &mut out);
     }
     // great nesting depths (around the 8-, 16- and 17-bit boundaries of a depth counter)
     out.push(format!("case {}", case));
